@@ -316,8 +316,9 @@ impl<T: Qcow2IoOps> Qcow2Dev<T> {
                 let res = self.flush_cache_entries(to_kill).await;
                 if res.is_err() {
                     // the evicted slices hold the only copy of their updates
-                    self.refblock_cache.put_back(evicted);
+                    self.refblock_cache.put_back(evicted.clone());
                 }
+                self.refblock_cache.eviction_done(&evicted);
                 res
             }
             _ => Ok(()),
